@@ -107,7 +107,15 @@ def main() -> None:
     rng = random.Random(seed)
     pool = []
     trees = {}
-    for rel in FILES:
+    files = FILES
+    only_functions = None
+    if os.environ.get("PROBE_GLOB"):  # e.g. PROBE_GLOB='pymarkdown/plugins/rule_md_0*.py' PROBE_FUNCTIONS='starting_new_file,initialize_from_config'
+        import glob
+
+        files = sorted(os.path.relpath(path, worktree) for path in glob.glob(os.path.join(worktree, os.environ["PROBE_GLOB"])))
+    if os.environ.get("PROBE_FUNCTIONS"):
+        only_functions = set(os.environ["PROBE_FUNCTIONS"].split(","))
+    for rel in files:
         path = os.path.join(worktree, rel)
         if not os.path.exists(path):
             continue
@@ -115,7 +123,8 @@ def main() -> None:
             text = handle.read()
         trees[rel] = (text, ast.parse(text))
         for index, (operator, name, node) in enumerate(candidates(trees[rel][1])):
-            pool.append((rel, index, operator, name, node.lineno, ast.unparse(node)[:120]))
+            if only_functions is None or name in only_functions:
+                pool.append((rel, index, operator, name, node.lineno, ast.unparse(node)[:120]))
     rng.shuffle(pool)
     for rel, index, operator, name, line, before in pool[:count]:
         text, tree = trees[rel]
